@@ -47,12 +47,12 @@ var hCfgVals = map[string][]string{
 	"goos":   {"linux", "darwin", "windows", "plan9"},
 	"goarch": {"amd64", "arm64", "386"},
 	"pkg":    {"p/a", "p/b", "p/c", "golang.org/x/perf/a/very/long/package/path/that/goes/on/and/on/and/on/impl1", "golang.org/x/perf/a/very/long/package/path/that/goes/on/and/on/and/on/impl2"},
-	"cpu":    {"1", "2", "10", "1k", "1Ki", "2M", "1500", "NaN", "inf", "abc", "zed", "3Gi", "1Zi", "1Yi", "2Z", "5.5", "0.5k", "999999999.5", "1000000000", "9.999999994e-1", "1e0", "1.0000000006", "4", "8", "010", "0100", "007", "08", "012k", ".5k", "1.k", ".5Mi", "2.5k", "600", "5."},
-	"note":   {"base", "opt", "opt2", "x y", "zz"},
+	"cpu":    {"1", "2", "10", "1k", "1Ki", "2M", "1500", "NaN", "inf", "abc", "zed", "3Gi", "1Zi", "1Yi", "2Z", "5.5", "0.5k", "999999999.5", "1000000000", "9.999999994e-1", "1e0", "1.0000000006", "4", "8", "010", "0100", "007", "08", "012k", ".5k", "1.k", ".5Mi", "2.5k", "600", "5.", "0.000000000000000000000000125Ki", "1000000000000000000000000000000k", "0000000000000000000000000000000000002"},
+	"note":   {"base", "opt", "opt2", "x y", "zz", "\xffa", "\xfeb", "\xc3", "é", "\U00010000", "\uffff", "\xf0\x90"}, // invalid UTF-8 and astral runes: bytewise is not code-point order
 	"commit": {"c1", "c2", "c3", "c4", "c5", "c6"},
 }
 // hShared values occur under every configuration key, so that the same string is first observed at different times under different keys.
-var hShared = []string{"4", "8", "16", "x"}
+var hShared = []string{"4", "8", "16", "x", "a\x00", "\x00b", "a", "b", "\x00"} // NUL bytes: values that run into each other when joined naively
 
 var hSubKeys = []string{"size", "align", "poly", "fmt", "size2", "al"}
 var hSubVals = map[string][]string{
@@ -293,6 +293,7 @@ type hProj struct {
 	byTuple  map[string]Key
 	keys     []Key // distinct keys in creation order
 	keyIdx   map[Key]int
+	cfgLate  map[string]bool // .config sub-fields created when the projection already had keys
 	tuples   map[Key]map[string]string // field name -> value (positions shift as .config grows)
 	rank     map[string]map[string]int // flat field name -> value -> first-observation rank
 	held     []hHeld                   // slices returned by ProjectValues that the caller kept
@@ -316,7 +317,7 @@ func (hp *hProj) checkHeld(c *hCheck) {
 }
 
 func newHProj(e hExpr) *hProj {
-	return &hProj{expr: e, keyIdx: map[Key]int{}, cfgSeen: map[string]bool{}, byKey: map[Key]string{}, byTuple: map[string]Key{}, tuples: map[Key]map[string]string{}, rank: map[string]map[string]int{}}
+	return &hProj{expr: e, keyIdx: map[Key]int{}, cfgLate: map[string]bool{}, cfgSeen: map[string]bool{}, byKey: map[Key]string{}, byTuple: map[string]Key{}, tuples: map[Key]map[string]string{}, rank: map[string]map[string]int{}}
 }
 
 type hInstance struct {
@@ -539,6 +540,9 @@ func (hp *hProj) tuple(w *hWorld, h *hResult, unit string) []string {
 			if !hp.cfgSeen[kv[0]] && !w.cfgSpecific[kv[0]] {
 				hp.cfgSeen[kv[0]] = true
 				hp.cfgOrder = append(hp.cfgOrder, kv[0])
+				if len(hp.keys) > 0 {
+					hp.cfgLate[kv[0]] = true // keys made before this sub-field existed lack it implicitly
+				}
 			}
 		}
 	}
@@ -606,8 +610,8 @@ func (hp *hProj) observe(c *hCheck, w *hWorld, h *hResult, key Key, unit string)
 		hp.byTuple[t] = key
 		// first-observation ranks (model): assigned when a tuple is first seen
 		for i, f := range fl {
-			if f.group && vals[i] == "" {
-				continue // when a missing value of a late .config key counts as observed is not prescribed
+			if f.group && vals[i] == "" && hp.cfgLate[f.name] {
+				continue // when the missing value of a .config key that appeared after other keys existed counts as observed is not prescribed
 			}
 			m := hp.rank[f.name]
 			if m == nil {
